@@ -834,11 +834,23 @@ def _sum(interp, st, a, axis=None, **kw):
     vals, mask = _values_of(interp, st, a)
     A = interp.A
     tot = 0.0 if interp.concrete and getattr(a, "dtype", "") in FLOAT_DTYPES else 0
+    single = getattr(a, "dtype", "") == "float32"
+    if interp.concrete and single:
+        import numpy as np
+        acc = np.float32(0.0)
+        for i, x in enumerate(vals):
+            if mask is None or mask[i]:
+                acc = np.float32(acc + np.float32(x))
+        return float(acc)
     for i, x in enumerate(vals):
         x = V.num_of_bool(x)
         if mask is not None:
             x = A.ite(mask[i], x, 0) if not isinstance(mask[i], bool) else (x if mask[i] else 0)
+        first = isinstance(tot, (int, float)) and not isinstance(tot, bool) and tot == 0
         tot = interp.scalar_binop(st, "Add", tot, x)
+        if single and interp.narrow is not None and not interp.concrete and not first and is_sym(tot):
+            # the sum of a float32 array is accumulated in single precision
+            tot = interp.narrow_op(st, "Add", tot, x, tot)
     return tot
 
 
@@ -1611,25 +1623,35 @@ def _math1(fn_name):
     return f
 
 
+_SINGLE_LOOP_INPUTS = ("int8", "uint8", "int16", "uint16", "float32", "bool")
+
+
 def _np_ew(fn_name):
     @native
     def f(interp, st, a, **kw):
+        # NumPy's (and Numba's) type resolution for the float ufuncs: 8 / 16-bit integers and float32 select the SINGLE precision loop
+        single = isinstance(a, (Arr, CArr)) and a.dtype in _SINGLE_LOOP_INPUTS
+        rdt = "float32" if single else "float64"
         if interp.concrete:
             import numpy as np
             pyf = getattr(np, fn_name)
 
             def g(x):
                 with np.errstate(all="ignore"):
-                    return float(pyf(np.float64(x)))
-            return elementwise1(interp, st, g, a, dtype="float64")
+                    return float(pyf(np.float32(x))) if single else float(pyf(np.float64(x)))
+            return elementwise1(interp, st, g, a, dtype=rdt)
 
         def g(x):
             if fn_name == "sqrt":
                 interp.oblige(st, "sqrt-domain", interp.A.cmp(">=", x, 0) if not V.is_nonfinite(x) else False, "sqrt of negative")
             if fn_name == "log":
                 interp.oblige(st, "log-domain", interp.A.cmp(">", x, 0) if not V.is_nonfinite(x) else False, "log of non-positive")
-            return getattr(interp.A, fn_name)(x)
-        return elementwise1(interp, st, g, a, dtype="float64")
+            r = getattr(interp.A, fn_name)(x)
+            if single and interp.narrow is not None and isinstance(r, z3.ExprRef):
+                r = type(r)(r.ast, r.ctx)
+                interp.narrow[id(r)] = r
+            return r
+        return elementwise1(interp, st, g, a, dtype=rdt)
     return f
 
 
